@@ -115,7 +115,8 @@ def descOf (c : Char V P) : Option (Option String) :=
 def baseRep (c : Char V P) (iid : Option Nat) : CharRep V P :=
   { iid := iid, typ := c.typ, props := c.props, desc := c.descOf, value := none }
 
-/-- `get_value()`; `gout` = outcome of `to_valid_value(getter_callback())` (`none` = raised).
+/-- `get_value()`; `gout` = outcome of `to_valid_value(getter_callback())` followed by
+    `valid_value_or_raise` (`none` = the callback, the conversion or the valid-values check raised).
     With a getter the result is written through the `value` setter (clearing the caches). -/
 def getValue (c : Char V P) (gout : Option V) : Option V × Char V P :=
   if c.getter then
